@@ -42,6 +42,7 @@ fn main() {
                 "C20" => clicase::gen(&mut out, thorough, seed),
                 "C19" => dict::gen(&mut out, thorough, seed),
                 "C17" => kytea::gen(&mut out, thorough, seed),
+                "C18" => gen_pred::gen_c18(&mut out, thorough, seed),
                 "C14" => gen_pred::gen_c14(&mut out, thorough, seed),
                 "C13" => gen_pred::gen_c13(&mut out, thorough, seed),
                 "C15" => gen_sent::gen_c15(&mut out, thorough, seed),
